@@ -4,15 +4,17 @@ SPEC = {
     "parts": [part("c19_outputs", "plain", ["c19_outputs.cpp"])],
     "rule": "trajectory part: all 128 subsets of 7 output flags x colvarsTrajFrequency {1,2,3} x every run segmentation "
             "(single run, or a second run repeating step K for every K, in the same process or as a restart from the "
-            "saved state) x a further variable defined before step A for every A x value words of length 4 (thorough 5) over 3 values (quick: "
+            "saved state) x a further variable defined before step A for every A (every 7th case also with the velocity column flipped from "
+            "the script interface before every step T) x value words of length 4 (thorough 5) over 3 values (quick: "
             "covering selection; thorough: the full menu product on every 9th word, and all 243 words on 6 flag subsets - "
             "the full product would be 4.2 million module runs with file output); analysis part: ALL value words of length 7 "
             "over 3 (thorough 4) values for the scalar variable and over 3 values for the 3-vector variable, each run with 4 "
-            "running-average and 20 correlation-function parameter tuples (coordinate type; coordinate_p2 for the vector); states = distinct output file contents, transitions = Colvars steps; "
+            "running-average and 24 correlation-function parameter tuples (coordinate type; coordinate_p2 for the vector; cross-correlation with "
+            "a second variable b = d^2 for the scalar), every 5th scalar word also as a run starting at step 100; states = distinct output file contents, transitions = Colvars steps; "
             "a case is non-trivial when its files were written and every number compared",
-    "assumptions": ["the step column of the running-average file is used only to align lines (run starts at step 0)",
+    "assumptions": ["the step column of the running-average file carries the step number of the simulation",
                     "either normalisation (N or N-1) of the standard deviation is accepted",
-                    "correlation functions: autocorrelation of coordinate (and coordinate_p2) type; time origins = the N most recent steps with a "
+                    "correlation functions of coordinate (and coordinate_p2) type, C_ab(lag) = <a(t) b(t-lag)>; time origins = the N most recent steps with a "
                     "complete row of lags, N taken from the file header"],
 }
 META = {
